@@ -10,10 +10,12 @@ recomputes the rational answer; law instances: the spec judges a measured discre
 Python only converts rationals <-> floats, calls pydl, and (M3 part only) calls numpy.polynomial + numpy.linalg.lstsq
 as the independent solver named in DESIGN.md.
 """
+import json
 import math
 import os
 import random
 import threading
+import time
 from fractions import Fraction as F
 
 import numpy as np
@@ -83,18 +85,47 @@ def rotate(ndim=1):
     return _ROT[0].choice(LAYOUTS2 if ndim >= 2 else LAYOUTS1)
 
 
-class Layouts(dict):
-    """The layout of every array handed over in one call; `forced` (from a replay file) wins over the rotation."""
+NUMTYPES = ['float', 'float', 'int64', 'int32', 'int16', 'uint16', 'uint8']
 
-    def __init__(self, forced=None):
+
+def as_type(a, numtype):
+    """The same VALUES in an integer type, or None when they are not integral / do not fit."""
+    a = np.asarray(a)
+    if numtype == 'float' or a.dtype == bool:
+        return a
+    v = np.asarray(a, dtype=np.float64)
+    info = np.iinfo(numtype)
+    if v.size == 0 or not np.all(v == np.round(v)) or v.min() < info.min or v.max() > info.max:
+        return None
+    return v.astype(numtype)
+
+
+def rotate_type():
+    return _ROT[0].choice(NUMTYPES)
+
+
+class Layouts(dict):
+    """Memory layout and numeric type ('strided', 'swapped:int16', ...) of every array handed over in one call;
+    `forced` (from a replay file) wins over the seeded rotation.  Integer types only where the values are integral."""
+
+    def __init__(self, forced=None, ints=True):
         dict.__init__(self)
         self.forced = forced or {}
+        self.ints = ints
 
-    def give(self, name, a):
+    def give(self, name, a, ints=None):
         a = np.asarray(a)
-        lay = self.forced.get(name) or rotate(a.ndim)
-        self[name] = lay
-        return dress(a, lay)
+        f = self.forced.get(name)
+        if f:
+            lay, _, numtype = f.partition(':')
+        else:
+            lay = rotate(a.ndim)
+            numtype = rotate_type() if (self.ints if ints is None else ints) else 'float'
+        b = as_type(a, numtype or 'float')
+        if b is None:
+            b, numtype = a, 'float'
+        self[name] = lay if (numtype or 'float') == 'float' or a.dtype == bool else '%s:%s' % (lay, numtype)
+        return dress(b, lay)
 
 
 def fq(v):
@@ -148,8 +179,12 @@ def basis_calls(basis, m, xs):
     yield 'f32-swapped-strided', (lambda: fn(dress(dress(np.array(xf, dtype=np.float32), 'swapped'), 'strided'), m)), \
         list(range(len(xs))), TOL32
     ints = [k for k, x in enumerate(xs) if x.denominator == 1]
+    for tname in ('int8', 'int16', 'int32', 'int64', 'uint8', 'uint16', 'uint32'):
+        sel = [k for k in ints if xs[k] >= 0 or not tname.startswith('u')]
+        if sel:
+            yield 'int-array-' + tname, (lambda sel=sel, tname=tname: fn(np.array([int(xs[k]) for k in sel], dtype=tname), m)), sel, TOL64
     if ints:
-        yield 'int-array', (lambda: fn(np.array([int(xs[k]) for k in ints], dtype=np.int64), m)), ints, TOL64
+        yield 'int-array-strided', (lambda: fn(dress(np.array([int(xs[k]) for k in ints], dtype=np.int32), 'strided'), m)), ints, TOL64
     for k, x in enumerate(xs):
         yield 'py-float', (lambda k=k: fn(xf[k], m)), [k], TOL64
         yield 'np-float64', (lambda k=k: fn(np.float64(xf[k]), m)), [k], TOL64
@@ -159,6 +194,11 @@ def basis_calls(basis, m, xs):
         yield '0d-f32', (lambda k=k: fn(np.asarray(np.float32(xf[k])), m)), [k], TOL32
         if x.denominator == 1:
             yield 'py-int', (lambda k=k: fn(int(xs[k]), m)), [k], TOL64
+            yield 'np-int64', (lambda k=k: fn(np.int64(int(xs[k])), m)), [k], TOL64
+            yield 'np-int16', (lambda k=k: fn(np.int16(int(xs[k])), m)), [k], TOL64
+            yield '0d-int32', (lambda k=k: fn(np.array(int(xs[k]), dtype=np.int32), m)), [k], TOL64
+            if x >= 0:
+                yield 'np-uint8', (lambda k=k: fn(np.uint8(int(xs[k])), m)), [k], TOL64
 
 
 def check_basis_group(ctx, basis, m, items):
@@ -187,11 +227,12 @@ def check_basis_group(ctx, basis, m, items):
                     if what:
                         break
         if what:
+            finding = 'D-C13-6' if (basis == 'chebyshev_split' and 'uint' in label and what.startswith('member')) else None
             report(ctx, ('basis', basis, label, what.split(' ')[0]),
                    {'what': '%s(x, %d) [%s] %s' % (ALIAS[basis], m, label, what), 'part': 'basis',
                            'basis': basis, 'm': m, 'conv': label,
                            'xs': [[xs[k].numerator, xs[k].denominator] for k in cols],
-                           'expected': [[[v.numerator, v.denominator] for v in items[k][1]] for k in cols]})
+                           'expected': [[[v.numerator, v.denominator] for v in items[k][1]] for k in cols]}, finding=finding)
     return n
 
 
@@ -278,7 +319,8 @@ def layout_signature(lays, what):
     read-only' - not the whole combination."""
     if not what.startswith('raised'):
         return ()
-    return tuple(sorted({v for v in lays.values() if v in ('swapped', 'readonly', '0d')}))
+    return tuple(sorted({v.partition(':')[0] for v in lays.values() if v.partition(':')[0] in ('swapped', 'readonly', '0d')} |
+                        ({'integer'} if any(':' in v for v in lays.values()) else set())))
 
 
 def odd_layouts(lays):
@@ -296,12 +338,16 @@ def check_fit(ctx, c, exp, only=None, layouts=None):
         try:
             res, yfit = call_fit(c, conv, layouts)
             what = judge_fit(c, exp, conv, res, yfit)
+        except core.MachineryError:
+            raise
         except Exception as ex:
             what = 'raised %s: %s' % (type(ex).__name__, str(ex)[:160])
         if what:
             lays = dict(LAST_LAYOUT)
             # D-C13-3: byte-swapped x and at least two free coefficients -> the dtype assertion of func_fit fails
             finding = 'D-C13-3' if (what.startswith('raised AssertionError') and lays.get('x') == 'swapped') else None
+            if finding is None and ':' in lays.get('x', '') and not what.startswith('raised'):
+                finding = 'D-C13-4'           # integer-typed x: coefficients stored in an integer array
             report(ctx, ('fit', c['basis'], c.get('fam'), conv, what.split(':')[0].rstrip('0123456789[] '),
                          layout_signature(lays, what)),
                    {'what': 'func_fit %s nc=%d ia=%s [%s/%s, layouts %s]: %s' % (
@@ -345,6 +391,8 @@ def check_hist(ctx, h, exp, layouts=None):
             what = 'raised %s' % describe(ex)
         if what:
             finding = 'D-C13-3' if (what.startswith('raised AssertionError') and lays.get('x') == 'swapped') else None
+            if finding is None and ':' in lays.get('x', '') and not what.startswith('raised'):
+                finding = 'D-C13-4'
             report(ctx, ('hist', h['basis'], what.split(':')[0].rstrip('0123456789[] '),
                          layout_signature(lays, what)),
                    {'what': 'func_fit history %s nc=%d, call %d of %d with ia=%s (same x, y, invvar, ia, inputans arrays as the '
@@ -398,7 +446,11 @@ def number_form(v, conv):
     if conv == 'xy2traceset-negzero' and v == (0, 1):
         return -0.0
     if conv.startswith('TraceSet-') and v[1] == 1:
-        return int(v[0])
+        # integral scalars as Python ints or numpy integer scalars of some width (seeded rotation)
+        t = _ROT[0].choice(['int', 'int64', 'int32', 'int16', 'uint8', 'uint16'])
+        if t == 'int' or (t.startswith('u') and v[0] < 0) or abs(v[0]) > 250:
+            return int(v[0])
+        return np.dtype(t).type(v[0])
     return fl(v)
 
 
@@ -429,7 +481,8 @@ def build_tset(c, exp, conv, lays):
         # zeros written as -0.0 everywhere: keywords, zero weights, zero positions; no rejection iterations
         kw['invvar'] = lays.give('invvar', np.where(w == 0, -0.0, w))
         kw['maxiter'] = 0
-        xpos = dress(np.where(np.asarray(xpos) == 0, -0.0, np.asarray(xpos)), lays['xpos'])
+        if ':' not in lays['xpos']:        # (an integer array cannot hold -0.0)
+            xpos = dress(np.where(np.asarray(xpos) == 0, -0.0, np.asarray(xpos)), lays['xpos'])
         return xy2traceset(xpos, ypos, **kw), xpos
     # the zero-weight points go through inmask, the other weights (if not all one) through invvar
     if conv == 'TraceSet-inmask':
@@ -462,6 +515,10 @@ def near_matrix(a, want, name, tol=TOL64):
 def judge_tset(c, exp, conv, t, xpos):
     from pydl.pydlutils.trace import traceset2xy
     nt = len(c['xpos'])
+    # a table stores its jump parameters in single precision: 8/16-bit integer positions are then shifted in single
+    # precision by numpy's promotion rules (float32 tolerance for exactly that combination)
+    tol = TOL32 if (conv == 'fits' and c['jump']['on'] and np.asarray(xpos).dtype.kind in 'iu'
+                    and np.asarray(xpos).dtype.itemsize <= 2) else TOL64
     if F(float(t.xmin)) != fq(exp['xmin']) or F(float(t.xmax)) != fq(exp['xmax']):
         return 'xmin/xmax %r %r expected %s %s' % (t.xmin, t.xmax, fq(exp['xmin']), fq(exp['xmax']))
     if t.nTrace != nt or t.ncoeff != c['nc'] or t.func != c['basis']:
@@ -475,7 +532,7 @@ def judge_tset(c, exp, conv, t, xpos):
     x2, y2 = traceset2xy(t, xpos)
     if not (np.array_equal(x1, xpos) and np.array_equal(x2, xpos)):
         return 'xy() did not return the positions it was given'
-    w = near_matrix(y1, exp['yfit'], 'xy(xpos)') or near_matrix(y2, exp['yfit'], 'traceset2xy(xpos)')
+    w = near_matrix(y1, exp['yfit'], 'xy(xpos)', tol) or near_matrix(y2, exp['yfit'], 'traceset2xy(xpos)', tol)
     if w:
         return w
     if conv != 'fits' and not np.allclose(y1, t.yfit, rtol=0, atol=1e-9 * max(1.0, float(np.abs(t.yfit).max()))):
@@ -513,6 +570,8 @@ def check_tset(ctx, c, exp, only=None, layouts=None):
         try:
             t, xpos = build_tset(c, exp, conv, lays)
             what = judge_tset(c, exp, conv, t, xpos)
+        except core.MachineryError:
+            raise
         except Exception as ex:
             what = 'raised %s: %s' % (type(ex).__name__, str(ex)[:160])
         if what:
@@ -524,7 +583,8 @@ def check_tset(ctx, c, exp, only=None, layouts=None):
                 (str(fq(j['lo'])), str(fq(j['hi'])), str(fq(j['val']))) if j['on'] else None,
                 str(fq(c['xmin'])) if c['gmin'] else None, str(fq(c['xmax'])) if c['gmax'] else None, conv,
                 odd_layouts(lays) or 'plain', what),
-                'part': 'tset', 'conv': conv, 'layouts': dict(lays), 'call': jsonable(c), 'expected': jsonable(exp)})
+                'part': 'tset', 'conv': conv, 'layouts': dict(lays), 'call': jsonable(c), 'expected': jsonable(exp)},
+                finding='D-C13-5' if (':' in lays.get('xpos', '') and not what.startswith('raised')) else None)
     return n
 
 
@@ -602,6 +662,11 @@ def basis_records(rng, n):
         conv = rng.choice(['f64', 'f64', 'f32', 'scalar', 'npscalar', 'fortran', '0d', '0d32', 'readonly', 'swapped', 'swapped32'])
         k = 1 if conv in ('scalar', 'npscalar', '0d', '0d32') else rng.randint(1, 7)
         xs = [rand_rat(rng, rng.choice([1, 2, 2, 3, 3, 4, 5, 6, 7, 8])) for _ in range(k)]
+        itype = rng.choice(['', '', '', 'int8', 'int16', 'int32', 'int64', 'uint8', 'uint16', 'npint', '0dint'])
+        if itype:                       # integral abscissae in an integer type
+            conv = itype
+            k = 1 if itype in ('npint', '0dint') else k
+            xs = [F(rng.randint(0 if itype.startswith('u') else -1, 1)) for _ in range(k)]
         top = min(MAXDEG[x.denominator] for x in xs) + (2 if basis == 'chebyshev_split' else 1)
         m = rng.randint(2 if basis == 'chebyshev_split' else 1, top)
         fn = basis_fn(basis)
@@ -612,6 +677,12 @@ def basis_records(rng, n):
             arg = np.float64(xf[0])
         elif conv == 'f32':
             arg = np.array(xf, dtype=np.float32)
+        elif conv == 'npint':
+            arg = rng.choice([np.int64, np.int32, np.int16, np.int8])(int(xs[0]))
+        elif conv == '0dint':
+            arg = np.array(int(xs[0]), dtype=rng.choice(['int64', 'int16']))
+        elif conv.startswith('int') or conv.startswith('uint'):
+            arg = np.array([int(x) for x in xs], dtype=conv)
         elif conv == '0d':
             arg = np.array(xf[0], dtype=np.float64)                 # a scalar in a zero-dimensional array
         elif conv == '0d32':
@@ -637,6 +708,8 @@ def basis_records(rng, n):
         except Exception as ex:
             rec['exc'] = describe(ex)
             rec['rows'], rec['cols'], rec['vals'] = -1, -1, []
+        if basis == 'chebyshev_split' and conv.startswith('uint') and not rec['exc']:
+            rec['finding'] = 'D-C13-6'          # applies only if the record is rejected
         recs.append(rec)
         if snap.items:
             recs.append(unchanged(snap, ALIAS[basis], m=m, conv=conv))
@@ -654,7 +727,7 @@ def fit_records(rng, n):
     hist = 0
     while nfit < n:
         basis = rng.choice(['legendre', 'chebyshev', 'poly', 'chebyshev_split'])
-        q = rng.choice([1, 2, 2, 3, 4])
+        q = rng.choice([1, 1, 2, 2, 3, 4])
         nc = rng.randint(2 if basis == 'chebyshev_split' else 1, 3 if q > 1 else 2)
         pool = sorted({F(p, q) for p in range(-q, q + 1)})
         npts = rng.randint(nc + 1, 9)
@@ -695,8 +768,16 @@ def fit_records(rng, n):
             ansa = np.array([int(v) for v in ians], dtype=np.int64)
         layout = {nme: rng.choice(LAYOUTS1) for nme in ('x', 'y', 'invvar', 'inputans')}
         layout['ia'] = rng.choice(['plain', 'strided'])         # (rewritten in place between the calls of a history)
-        xa, ya, wa = dress(xa, layout['x']), dress(ya, layout['y']), dress(wa, layout['invvar'])
-        ansa, iaa = dress(ansa, layout['inputans']), dress(iaa, layout['ia'])
+        arrs = {'x': xa, 'y': ya, 'invvar': wa, 'inputans': ansa}
+        for nme in ('x', 'y', 'invvar', 'inputans'):            # integral values also in integer types
+            t = rng.choice(NUMTYPES)
+            b = as_type(arrs[nme], t)
+            if t != 'float' and b is not None:
+                arrs[nme] = b
+                layout[nme] += ':' + t
+            arrs[nme] = dress(arrs[nme], layout[nme].partition(':')[0])
+        xa, ya, wa, ansa = arrs['x'], arrs['y'], arrs['invvar'], arrs['inputans']
+        iaa = dress(iaa, layout['ia'])
         hist += 1
         for call, mk in enumerate(masks):
             iaa[:] = mk
@@ -716,8 +797,10 @@ def fit_records(rng, n):
             except Exception as ex:
                 rec['exc'] = describe(ex)
                 rec['res'], rec['yfit'] = [], []
-                if isinstance(ex, AssertionError) and layout['x'] == 'swapped':
+                if isinstance(ex, AssertionError) and layout['x'].startswith('swapped'):
                     rec['finding'] = 'D-C13-3'
+            if ':' in layout['x'] and not rec['exc']:
+                rec['finding'] = 'D-C13-4'          # applies only if the specification rejects the record
             recs.append(rec)
             nfit += 1
             recs.append(unchanged(snap, 'func_fit', hist=hist, call_index=call, ncalls=ncalls))
@@ -778,7 +861,14 @@ def tseval_records(rng, n):
         xp = [[min(max(x, F(a)), F(b)) for x in row] for row in xp]
         cf = np.array([[float(v) for v in r] for r in coeff])
         lay = rng.choice(LAYOUTS2)
-        xpa = dress(np.array([[float(v) for v in r] for r in xp]), lay)
+        if rng.random() < 0.3:          # integral positions, handed over in an integer type where they fit
+            xp = [[F(math.floor(x)) for x in row] for row in xp]
+        xpa = np.array([[float(v) for v in r] for r in xp])
+        t_ = rng.choice(NUMTYPES)
+        if t_ != 'float' and as_type(xpa, t_) is not None:
+            xpa = as_type(xpa, t_)
+            lay += ':' + t_
+        xpa = dress(xpa, lay.partition(':')[0])
         exc = ''
         first = rng.random() < 0.5
         snap = Snap(xpos=xpa)
@@ -797,11 +887,14 @@ def tseval_records(rng, n):
         except Exception as ex:
             exc = describe(ex)
             vals, gvals, gi, gs = [], [], [], grid_summary(np.zeros((0, 0)), nt)
+        small = lay.partition(':')[2] in ('int16', 'uint16', 'uint8', 'int8') and on and not ign
         recs.append({'kind': 'tseval', 'basis': basis, 'nc': nc, 'coeff': [[rq(v) for v in r] for r in coeff],
                      'xmin': rq(xmin), 'xmax': rq(xmax),
                      'jump': {'on': on, 'lo': rq(lo), 'hi': rq(hi), 'val': rq(val)}, 'ign': bool(ign),
                      'xp': [[rq(v) for v in r] for r in xp], 'vals': vals, 'grid': gs, 'gi': gi, 'gvals': gvals,
-                     'tol': TOLU64, 'exc': exc, 'layout': lay})
+                     'tol': TOLU32 if small else TOLU64, 'exc': exc, 'layout': lay})
+        if ':' in lay and not exc:
+            recs[-1]['finding'] = 'D-C13-5'         # integer-typed positions: applies only if the record is rejected
         recs.append(unchanged(snap, 'traceset2xy', basis=basis, nc=nc))
     return recs
 
@@ -823,7 +916,11 @@ def limits_records(rng, n):
             dmax = F(b) + F(1, 2)
         ypos = 3.0 + 0.01 * xpos + 1e-4 * xpos ** 2
         lay = rng.choice(LAYOUTS2)
-        xpos, ypos = dress(xpos, lay), dress(ypos, rng.choice(LAYOUTS2))
+        t_ = rng.choice(NUMTYPES)
+        if t_ != 'float' and as_type(xpos, t_) is not None:
+            xpos = as_type(xpos, t_)
+            lay += ':' + t_
+        xpos, ypos = dress(xpos, lay.partition(':')[0]), dress(ypos, rng.choice(LAYOUTS2))
         cmin = [None, dmin - 1, dmin - F(1, 4), dmin - 7]
         if dmin > 0:
             cmin += [F(0), F(0), F(0)]
@@ -836,7 +933,9 @@ def limits_records(rng, n):
         def form(v):
             if v == 0:
                 return {'float': 0.0, 'int': 0, 'negzero': -0.0}[zform]
-            return int(v) if (v.denominator == 1 and zform == 'int') else float(v)
+            if v.denominator == 1 and zform == 'int':
+                return rng.choice([int, np.int64, np.int32, np.int16])(int(v))
+            return float(v)
         kw = {'ncoeff': rng.randint(1, 3), 'func': rng.choice(['legendre', 'chebyshev', 'poly'])}
         if xmin is not None:
             kw['xmin'] = form(xmin)
@@ -1057,9 +1156,14 @@ def tset_law_records(rng, nprng, n):
         info = {'basis': basis, 'nc': nc, 'nTrace': nt, 'nx': nx, 'jump': bool(jump), 'seed_index': it,
                 'limits': [repr(kw.get('xmin')), repr(kw.get('xmax'))],
                 'jumpargs': [repr(kw.get(kk)) for kk in ('xjumplo', 'xjumphi', 'xjumpval')]}
+        start = len(recs)
         lays = {nme: rng.choice(LAYOUTS2) for nme in ('xpos', 'ypos', 'invvar', 'inmask')}
+        t_ = rng.choice(NUMTYPES)
+        if width == 64 and t_ != 'float' and as_type(xpos, t_) is not None:      # an integer pixel grid
+            xpos = as_type(xpos, t_)
+            lays['xpos'] += ':' + t_
         info['layouts'] = {k2: v for k2, v in lays.items() if v != 'plain'}
-        xpos, ypos = dress(xpos, lays['xpos']), dress(ypos, lays['ypos'])
+        xpos, ypos = dress(xpos, lays['xpos'].partition(':')[0]), dress(ypos, lays['ypos'])
         invvar, inmask = dress(invvar, lays['invvar']), dress(inmask, lays['inmask'])
         if 'invvar' in kw:
             kw['invvar'] = invvar
@@ -1112,6 +1216,10 @@ def tset_law_records(rng, nprng, n):
             raise
         except Exception as ex:
             recs.append(law(stage, 2 * 10**9, width=width, crash=True, exc=describe(ex), **info))
+        if ':' in lays['xpos']:
+            for r in recs[start:]:
+                if not r.get('crash'):
+                    r['finding'] = 'D-C13-5'
     return recs
 
 
@@ -1230,6 +1338,71 @@ def record_direction(ctx):
                 'part': 'record', 'why': bad[i], 'record': rec}, finding=rec.get('finding'))
     ctx.sample({'recorded': {kk: v for kk, v in recs[0].items()}})
     ctx.sample({'law_instance': next(rec for rec in recs if rec['kind'] == 'law')})
+    selftest(ctx, recs, wire, bad)
+
+
+def falsify(w, k):
+    """One observed field of an accepted record moved beyond the tolerance (None if the record has nothing to move)."""
+    r = json.loads(json.dumps(w))
+    kind = r['kind']
+    bump = 2 ** 22           # 4e-3 in units of 2^-30: beyond the float64 and the float32 tolerance
+    if kind == 'basis':
+        if not r['vals']:
+            return None
+        if k % 3:
+            a = k % len(r['vals'])
+            r['vals'][a][(k // 3) % len(r['vals'][a])][1] += bump
+        else:
+            r['rows'], r['cols'] = r['cols'] + 1, r['rows']          # transposed / wrong shape
+    elif kind == 'fit':
+        if not r['res']:
+            return None
+        if k % 2 == 0:
+            r['res'][k % len(r['res'])][0] += 1
+        else:
+            r['yfit'][k % len(r['yfit'])][1] += bump
+    elif kind == 'tseval':
+        if not r['vals'] or not r['vals'][0]:
+            return None
+        m = k % 4
+        if m == 0:
+            r['vals'][k % len(r['vals'])][0][1] += bump
+        elif m == 1:
+            r['grid']['nx'] += 1
+        elif m == 2:
+            r['grid']['first'] = [r['grid']['first'][0] + r['grid']['first'][1], r['grid']['first'][1]]
+        else:
+            if not r['gvals'] or not r['gvals'][0]:
+                return None
+            r['gvals'][0][-1][1] += bump
+    elif kind == 'grid':
+        r['grid']['nx'] -= 1
+    elif kind == 'limits':
+        if k % 2 == 0:
+            r['omin'] = [r['omin'][0] + r['omin'][1], r['omin'][1]]
+        else:
+            r['omax'] = [r['omax'][0] - r['omax'][1], r['omax'][1]]
+    elif kind == 'law':
+        if r['crash']:
+            return None
+        r['disc'] = 150000000            # above every tolerance of the trace specification
+    else:
+        return None
+    return r
+
+
+def selftest(ctx, recs, wire, bad):
+    """Non-vacuity of the binding: ~200 accepted records with one observed field falsified must all be rejected."""
+    fals = []
+    step = max(1, len(wire) // 260)
+    for i in range(0, len(wire), step):
+        if i in bad or recs[i].get('exc'):
+            continue
+        f = falsify(wire[i], i // step)
+        if f is not None:
+            fals.append(f)
+    fals = fals[:240]
+    core.binding_selftest(ctx, 'Trace_TraceSetPoly', fals, 'recorded_calls', extra_env={'VERIF_SELFTEST': '1'})
 
 
 def run(ctx):
@@ -1246,7 +1419,11 @@ def run(ctx):
         'M3 law instances (general weighted optimum on random float data, fit->evaluate on float trace sets, jump laws and '
         'round trip on the FITS fixtures): numpy.polynomial + numpy.linalg.lstsq are the independent oracle, the harness '
         'measures the discrepancy, the spec judges it (exploration, not model checking)',
-        'trace sets are restricted to func in {legendre, chebyshev, poly} (the evaluators TraceSet offers)']
+        'trace sets are restricted to func in {legendre, chebyshev, poly} (the evaluators TraceSet offers)',
+        'integer types: every argument with integral values is also handed over as int64/int32/int16/uint16/uint8 (and numpy '
+        'integer scalars for scalar keywords); ia is documented as an array of bool and is not given as integers; a trace '
+        'set read from a table keeps its jump parameters in float32, so 8/16-bit integer positions are shifted in single '
+        'precision there (float32 tolerance for exactly that combination)']
     _ROT[0] = random.Random(ctx.seed)
     cfg = 'MC_TraceSetPoly_quick.cfg' if ctx.quick else 'MC_TraceSetPoly_thorough.cfg'
     # the model-checking run and the recording of real calls are independent: run TLC in a thread meanwhile
@@ -1268,6 +1445,7 @@ def run(ctx):
     r = box['r']
     groups = {}
     nstate = 0
+    cpu0 = time.process_time()
     for st in core.iter_states(r):
         c, exp = st['c'], st['exp']
         kind = c.get('kind')
@@ -1311,6 +1489,7 @@ def run(ctx):
     if nstate == 0:
         raise core.MachineryError('MC_TraceSetPoly produced no cases')
 
+    ctx.cov['parts']['replay_cpu_s'] = round(time.process_time() - cpu0, 1)
     ctx.exhaustive = not ctx.quick
     summary()
 
